@@ -221,8 +221,8 @@ Inputs == [v : Values, mods : ModSets, fmt : Fmts, cf : CFmts, size : Sizes, etc
 
 \* combinations the tags cannot express, or whose behaviour is an exception, are not explored
 Expressible(i) ==
-    /\ (i.form = "entity" => i.fmt = "" /\ i.size = -1 /\ ~i.null /\ ~i.missing /\ i.cf = "s"
-                             /\ i.mods # {})
+    \* (&dtml-x; is html_quote alone, &dtml.m1.m2-x; the modifiers m1 m2, &dtml.-x; no modifier at all: the plain insertion)
+    /\ (i.form = "entity" => i.fmt = "" /\ i.size = -1 /\ ~i.null /\ ~i.missing /\ i.cf = "s")
     /\ (i.v.k # "text" => i.fmt \in {"", "url-quote", "url-quote-plus", "comma-numeric", "pct", "html-quote"} \cup DollarFmts)
     /\ (i.fmt \in DollarFmts => i.v.k \in {"text", "num"} /\ (i.v.k = "num" => Decimals(i.v.s) <= 2))
     /\ (i.v.k \notin {"text", "num"} => i.mods \subseteq {"html_quote", "newline_to_br"})
